@@ -444,7 +444,8 @@ def judge_item(ctx, v, r, strm, tpl, fam_label, fp0, mode, L, lclass, sel_cont, 
     stale = False
     if not traj_ok:
         qS, _pS = LF.leapfrog_stale(q0, p0, rv.grad, eps, L)
-        stale = L >= 2 and _close_dict(q_end, qS, sens_q)
+        # named only when that defect model explains the observation AND is itself distinguishable from leapfrog
+        stale = L >= 2 and _close_dict(q_end, qS, sens_q, terms=1, mult=10.0) and not _close_dict(qS, qL, sens_q)
         cond = "stale-first-half-kick" if stale else lclass
         ctx.violation(
             f"C28|op=edit|on=HMC|field=trajectory|cond={cond}",
